@@ -74,6 +74,8 @@ STATEMENT_STATUS: Dict[str, str] = {
     "C02_table_represents / C02_stream_represents": "proved (round 2): SecRep follows from what the writer wrote",
     "C02_row_types / C02_inuse_types / C02_objstm_index / C02_defaults / C02_literals":
         "proved (round 2) about definitions REGENERATED from the Python source (Gen/Xref.lean)",
+    "C02_row_layout": "proved (round 6) about REGENERATED row addressing (entlen, offset = entlen*index, data/field slices, "
+                      "/Index walk: range test, index += on hit/miss, start value) of get_pos/get_objids/load",
     "C02_table_fuel / C02_fallback_fuel": "proved (round 2): loops terminate within one iteration per byte",
     "C02_fallback": "proved (round 2): body scan offsets = true offsets; hypothesis ItemsOK checked per damaged file by itemsOKb",
     "C02_cue_header": "proved (round 2): PDFOBJ_CUE matcher accepts every rendered `n g obj` header",
